@@ -75,7 +75,7 @@ RULE = (
 )
 TRUSTED_BASE = [
     "C++ semantics (throw = loud fault, .at() bounds-checked, if/else and nested-if control flow) and Python semantics (First of empty raises, and/or/if-else lazy) as written in lean/FaxVerif/Cpp/Sem.lean and lean/FaxVerif/Linq/Query.lean",
-    "tools/cparse.py; the text tie of C01 for the First / and-lowering shapes",
+    "tools/cparse.py (compared on every program of every run with the Lean parser Cpp/Parse.lean, whose round trip with the printer is the theorem C02.parse_render (stream parse-tie: equal trees required)); the text tie of C01 for the First / and-lowering shapes",
 ]
 ASSUMPTIONS = ["null links and the poisoned-null oracle of the DESIGN are not exercised: isNonnull is injected C++ (opaque to the model); C11 covers its substitution"]
 LEVEL_TEXT = (
